@@ -61,5 +61,9 @@ Definition P_L : float := 0x1.3333333333333p+0%float.
 Lemma P_s_inside : PrimFloat.leb 0 P_s && PrimFloat.leb P_s P_L = true.
 Proof. vm_compute. reflexivity. Qed.
 Lemma P_path_valueerror rep t2T :
-  inv_arclength_path NumF rep t2T P_segs P_L P_s F_tol 10000 = EValueError.
+  inv_arclength_path NumF rep false t2T P_segs P_L P_s F_tol 10000 = EValueError.
 Proof. vm_compute. reflexivity. Qed.
+(* with the clamp (prep = true) the same call returns the end of segment 1 *)
+Lemma P_path_repaired rep t2T :
+  inv_arclength_path NumF rep true t2T P_segs P_L P_s F_tol 10000 = IRet (t2T 1%nat 1%float).
+Proof. destruct rep; vm_compute; reflexivity. Qed.
